@@ -407,6 +407,55 @@ def c05(ctx):
     ctx.notes["outcome_kinds"] = kinds
     for t, env, _ in cases[:: max(1, len(cases) // 6)][:6]:
         ctx.sample({"tree": p_str(t)[:200], "env": {k: str(v)[:30] for k, v in env.items()}})
+    # the value of a tree is the value of its CURRENT structure: trees edited after construction
+    # (operands replaced, children swapped, nodes rotated, rules applied in place) must evaluate
+    # exactly like a freshly constructed tree of the same structure
+    from . import gen as _gen
+    from .props_rules import inplace_family
+    nedit = 0
+    for _ in range(600 if quick else 12000):
+        t0 = _gen.rand_tree(rng, rng.choice([2, 3, 3, 4]), allow_eq=False)
+        try:
+            root = core.tuple_to_py(t0)
+        except Exception:  # noqa
+            continue
+        edits = []
+        for _k in range(rng.choice([1, 1, 2, 3])):
+            nodes = core.inorder(root)
+            n = rng.choice(nodes)
+            kind = rng.choice(["swap", "rotate", "replace", "set_child"])
+            try:
+                from mathy_core import expressions as _E
+                if kind == "swap" and isinstance(n, _E.BinaryExpression):
+                    l_, r_ = n.left, n.right
+                    n.set_left(r_)
+                    n.set_right(l_)
+                elif kind == "rotate" and n.parent is not None and isinstance(n, _E.BinaryExpression) \
+                        and isinstance(n.parent, _E.BinaryExpression):
+                    n.rotate()
+                    root = n.get_root()
+                elif kind == "replace" and n.parent is not None:
+                    new = _E.ConstantExpression(rng.choice([3, -2, 5]))
+                    n.parent.set_side(new, n.parent.get_side(n))
+                elif kind == "set_child" and isinstance(n, _E.UnaryExpression):
+                    n.set_child(_E.VariableExpression(rng.choice("xy")))
+                else:
+                    continue
+                edits.append(kind)
+            except Exception:  # noqa
+                break
+        if not edits or core.audit_links(root):
+            continue
+        nedit += 1
+        st = core.eval_stale(root, nenv=2)
+        if st is not None:
+            bad.append({"start": core.tuple_str(t0), "edits": edits, "problem": "evaluate() of an edited tree is not the "
+                        "value of its structure", "witness": st})
+    ctx.notes["edited_trees_evaluated"] = nedit
+    ctx.coverage["evaluations"] += nedit
+    iprobs, _walks = inplace_family(ctx, "C05")
+    for p_ in iprobs[:5]:
+        bad.append(dict(p_, problem="evaluate() after in-place rewrites is not the value of the structure"))
     finish(ctx, [("evaluate", bad)], [("pyeval", diffs)], "evaluation computes the mathematically correct number")
 
 
